@@ -99,6 +99,15 @@ VERIF_OBS(g_cpu_features, int)
   (verif_obs_block_len((o)->block_len) && verif_obs_out_flags((o)->flags) &&            \
    verif_obs_out_counter((o)->counter))
 
+/* units *_fn (-DVERIF_FN): uninterpreted kernels, the ghost witness byte, FN() contract clauses */
+#ifdef VERIF_FN
+#include "spec_fn.h"
+#define FN(clause) clause
+#else
+#define FN(clause)
+#define VERIF_FN_PROLOGUE() do { } while (0)
+#endif
+
 /* first statement of every harness: start from an arbitrary feature-cache state (not only
  * the initial UNDEFINED), and reference the observers so that the backend's
  * `goto-instrument --drop-unused-functions` pre-pass keeps them */
@@ -110,6 +119,7 @@ VERIF_OBS(g_cpu_features, int)
            verif_obs_chunk_counter(0) && verif_obs_chunk_flags(0) &&                     \
            verif_obs_cv_stack_len(0) && verif_obs_block_len(0) && verif_obs_out_flags(0) && \
            verif_obs_out_counter(0) && verif_obs_g_cpu_features(0));                     \
+    VERIF_FN_PROLOGUE();                                                                 \
   } while (0)
 
 /* ---- ghost state for blake3_hasher_init_derive_key (the C string and its length) --- */
